@@ -112,6 +112,51 @@ pub fn run(ctx: &mut Ctx) {
             });
         }
     }
+    // the same gap fillers on a Starknet contract (component, storage nodes, events, interface, embedded impls,
+    // constructor / l1_handler / external) in a database with the Starknet plugin suite, whose plugins build most
+    // of their output from code templates
+    {
+        let src: &str = include_str!("data/starknet_seed.cairo");
+        let pdb = crate::text::new_db();
+        let (root, _) = pdb.parse_virtual_with_diagnostics(src);
+        let toks = token_ranges(&pdb, root);
+        let mut gaps: Vec<usize> = toks.iter().map(|(s, _, _)| *s).collect();
+        gaps.push(src.len());
+        let step = tier.pick(3, 1);
+        let mut texts: Vec<(usize, &str, String)> = vec![(0, "", src.to_string())];
+        texts.extend(gaps.iter().step_by(step).flat_map(|g| FILLERS.iter().map(move |f| (*g, *f, format!("{}{}{}", &src[..*g], f, &src[*g..])))));
+        let mut sdb: Option<cairo_lang_compiler::db::RootDatabase> = None;
+        let mut n_in_db = 0usize;
+        for (ci, chunk) in texts.chunks(40).enumerate() {
+            ctx.case(|| json!({"space":"sem-gap-fillers-starknet","chunk":ci}), |ctx| {
+                for (g, f, m) in chunk {
+                    if !ctx.sub(|| json!({"text": m, "origin": {"seed":"starknet","filler":f,"at_byte":g}, "stage": "semantic+lowering diagnostics (Starknet plugins)"})) {
+                        continue;
+                    }
+                    if sdb.is_none() || n_in_db > 300 {
+                        sdb = Some(crate::c19::starknet_db());
+                        n_in_db = 0;
+                    }
+                    n_in_db += 1;
+                    let d = sdb.as_mut().unwrap();
+                    ctx.count("evaluations", 1);
+                    ctx.count("semantic_texts", 1);
+                    ctx.distinct(&("sem-starknet", m));
+                    let r = ctx.guarded(|| {
+                        let ci = set_src(d, "t", m);
+                        diagnostics(d, &ci)
+                    });
+                    match r {
+                        Ok((_, has_err)) => ctx.outcome(if has_err { "sem-starknet:errors" } else { "sem-starknet:clean" }),
+                        Err((loc, msg)) => {
+                            sdb = None;
+                            ctx.violation(panic_sig(&loc, &msg), format!("diagnostics computation (Starknet plugins) panicked at {loc}: {msg}"), json!({"text": m, "origin": {"seed":"starknet","filler":f,"at_byte":g}}));
+                        }
+                    }
+                }
+            });
+        }
+    }
     // single-token mutants of seed programs
     let nseeds = tier.pick(4, SEEDS.len());
     for (name, src) in SEEDS.iter().take(nseeds) {
